@@ -125,6 +125,7 @@ theorem inv_step {w : World} (hw : Inv w) (i : Nat) (st : Stmt) : Inv (step w i 
       · exact inv_endTx (inv_shared h1 _ _) i true
       · exact inv_endTx h1 i false
   | readO => simp only [step]; exact inv_endStmt (inv_ensureTx hw i) i
+  | readHead => simp only [step]; exact inv_endStmt (inv_ensureTx hw i) i
   | writeO op =>
     simp only [step]
     have h1 := inv_ensureTx hw i
@@ -190,6 +191,19 @@ state of that moment — also a database the session has never referenced (`othe
 theorem all_databases_snapshotted_at_start (w : World) (i : Nat) (h : (w.sess i).active = false) :
     ((ensureTx w i).sess i).snapO = w.other ∧ ((ensureTx w i).sess i).workO = w.other := by
   simp [ensureTx, h, startTx]
+
+/-- `head_relative_reads_are_pinned`: inside an open transaction `… AS OF 'HEAD'` / `AS OF '<branch>'`
+returns the HEAD root the branch had when the transaction began, whatever dolt commits other sessions
+create in between. -/
+theorem head_relative_reads_are_pinned (i : Nat) (sched : List (Nat × Stmt)) (w : World)
+    (h : OthersOnly i sched) (ha : (w.sess i).active = true) :
+    (step (run w sched) i .readHead).2.2 = some (w.sess i).snap.head := by
+  have hs := snapshot_stable i sched w h
+  show some ((ensureTx (run w sched) i).sess i).snap.head = _
+  rw [ensureTx_of_active _ _ (by rw [hs]; exact ha), hs]
+
+example : (step (run World.init [(0, .begin), (1, .write (.ins 1 [none])), (1, .dcommit)]) 0 .readHead).2.2 = some [] := by decide
+example : (run World.init [(0, .begin), (1, .write (.ins 1 [none])), (1, .dcommit)]).shared.head = [(1, [none])] := by decide
 
 /-- what `SELECT * FROM otherdb.t` returns -/
 theorem readO_returns_workO (w : World) (i : Nat) :
